@@ -599,6 +599,21 @@ func RunOnce(t *testing.T, mk func() Scenario, tape *Tape, opt RunOpts) (res Res
 				w.Violate(v)
 			}
 		}
+		if w.viol != nil && w.viol.Rule == "R0" && w.Net != nil {
+			// "did not finish" in a run in which a message was lost in flight (written, then discarded by
+			// the reader's idle-timeout reset): the loss is a fault of the environment, and the liveness
+			// rules speak of runs without one. No verdict.
+			w.Net.mu.Lock()
+			lost := w.Net.LostInFlight
+			w.Net.mu.Unlock()
+			if lost > 0 {
+				w.mu.Lock()
+				w.viol = nil
+				w.mu.Unlock()
+				res.Inconclusive = true
+				w.Probe("not-finished-after-message-lost-in-flight")
+			}
+		}
 		if os.Getenv("VERIF_DUMP") != "" {
 			buf := make([]byte, 4<<20)
 			n := runtime.Stack(buf, true)
